@@ -226,7 +226,7 @@ func (P *Program) registerVH() {
 	})
 	P.reg(VH+".Observe", func(fr *frame, args []value) value {
 		in := fr.in
-		in.observed = append(in.observed, Observation{Name: in.goStr(args[0], "observe name"), Val: in.show(args[1].(iface).v)})
+		in.observed = append(in.observed, in.observation(in.goStr(args[0], "observe name"), args[1].(iface).t, args[1].(iface).v))
 		return nil
 	})
 	P.reg(VH+".And", func(fr *frame, args []value) value {
@@ -283,7 +283,7 @@ func (P *Program) registerVH() {
 	P.reg(VH+".Choose", func(fr *frame, args []value) value {
 		in := fr.in
 		n := in.mustInt(args[0], "choose bound")
-		t := in.C.Fresh("choose", smt.BV(64))
+		t := in.newNondet("choose", "choose", smt.BV(64))
 		in.assumeSilently(in.C.BVULt(t, in.C.BVConstU(uint64(n), 64)))
 		v := in.concretize(t, "choose")
 		return in.C.BVConst(v, 64)
@@ -576,4 +576,62 @@ func (P *Program) registerBig() {
 		}
 		panic(unsupported{"big.Int.Exp of symbolic values"})
 	})
+}
+
+// observation keeps scalar observations as terms so that a path witness can evaluate them.
+func (in *Interp) observation(name string, t types.Type, v value) Observation {
+	o := Observation{Name: name}
+	if t != nil {
+		if b := basicOf(t); b != nil {
+			if _, signed, ok := intWidth(b); ok && !signed {
+				o.uns = true
+			}
+		}
+	}
+	switch x := v.(type) {
+	case *smt.Term:
+		o.term = x
+	case bigVal:
+		o.term = in.bigOf(x)
+	case timeVal:
+		o.term = x.sec
+	case *value:
+		if x != nil {
+			if b, ok := (*x).(bigVal); ok {
+				o.term = in.bigOf(b)
+			}
+		}
+	case array:
+		if len(x) == 32 {
+			if _, ok := x[0].(*smt.Term); ok {
+				o.term = in.C.StrHex(in.hashToBV(x))
+			}
+		}
+	}
+	if o.term != nil && o.term.IsValue() {
+		o.Val = in.renderObs(o.term, o.uns)
+		o.term = nil
+	} else if o.term == nil {
+		o.Val = in.show(v)
+	}
+	return o
+}
+
+func (in *Interp) renderObs(t *smt.Term, uns bool) string {
+	if uns && t.Sort.K == smt.KBV {
+		return t.Val.String()
+	}
+	switch t.Sort.K {
+	case smt.KBool:
+		if t.B {
+			return "true"
+		}
+		return "false"
+	case smt.KStr:
+		s, _ := in.C.GoString(t)
+		return s
+	case smt.KInt:
+		return t.Val.String()
+	}
+	return t.SVal().String()
 }
